@@ -329,11 +329,14 @@ func c08Case(r *core.Run, idx int, rng *rand.Rand) {
 			c.PostEdit = func(x string) string { return strings.Replace(x, `Version="2.0"`, `Version="2.0" Consent="urn:x"`, 1) }
 		}
 	case 6: // persistence fails
-		c.Labels = append(c.Labels, "persist_fails")
+		// persistence (or, half as often, the service-provider lookup) fails, with every flavour of error
+		kind := []string{sim.FaultError, sim.FaultTimeout, sim.FaultTemporary, sim.FaultPoolClosed}[rng.Intn(4)]
+		failing := []string{"CreateAuthRequest", "CreateAuthRequest", "GetEntityByID"}[rng.Intn(3)]
+		c.Labels = append(c.Labels, "persist_fails", failing+"/"+kind)
 		mod = func(e *env.Env) {
 			e.W.Plan = func(tag, op string, occ int) string {
-				if op == "CreateAuthRequest" {
-					return sim.FaultError
+				if op == failing {
+					return kind
 				}
 				return ""
 			}
